@@ -303,6 +303,15 @@ def run_scripted(case):
                 if int(sol.tdgl_data.state["step"]) != s:
                     res.violate("solution-step-lookup", detail={"index": i, "label": s})
                     break
+                # whichever frame is loaded, the reported times and per-step records are those of the whole run
+                st_i = sol.times
+                if st_i is None or len(st_i) != len(ft) or np.max(np.abs(np.asarray(st_i, float) - ft)) > 1e-9 * DT0:
+                    res.violate("solution-times", same_length=bool(st_i is not None and len(st_i) == len(ft)), loaded_frame=("final" if i == len(labels) - 1 else "earlier"),
+                                detail={"loaded_index": i, "case": case})
+                    break
+                if sol.dynamics is None or not np.array_equal(np.asarray(sol.dynamics.dt, float), got_dt):
+                    res.violate("solution-dynamics-dt", loaded_frame=("final" if i == len(labels) - 1 else "earlier"), detail={"loaded_index": i, "case": case})
+                    break
         except Exception as exc:  # noqa: BLE001
             res.violate("solution-load-frame", exc=type(exc).__name__, detail={"msg": str(exc)[:200]})
     return res
